@@ -179,7 +179,7 @@ class Check:
                 self.unsupported.append((fname, c.cfg_name(cfg), f"cross-path clause: {e}"))
             finally:
                 sym.CUR[0] = None
-            if len(self.obls) == n_obl_before:
+            if len(self.obls) == n_obl_before and not any(u[0] == fname and u[1] == c.cfg_name(cfg) for u in self.unsupported):
                 self.faults.append(f"{tag}: zero obligations generated")
 
     def lemma(self, name, hyps, goal, tactics=("poly", "linear"), expect="unsat", note=None):
@@ -425,14 +425,14 @@ class Check:
             print(f"  out-of-reach: {f}[{c}]: {m[:200]}")
         for n, r in self.undecided[:10]:
             print(f"  undecided: {n}: {r[:160]}")
-        if self.faults:
-            for f in self.faults:
-                print(f"CHECKER-FAULT: {f}")
-            return 3
+        for f in self.faults:
+            print(f"CHECKER-FAULT: {f}")
         if self.violations:
             for v in self.violations:
                 print(f"VIOLATION property={self.prop} replay={v['replay']}" + (" no-failing-input-found" if v["no_input"] else ""))
             return 1
+        if self.faults:
+            return 3
         return 0
 
 
